@@ -268,6 +268,10 @@ def cases_activity_calls(tier):
     for omf, cmf in (([-1], [0]), ([0], [-1]), ([0], [0]), (None, None), ([-1], [-1]), ([0], None), (None, [0])):
         for zero_cfg in (False, True):
             yield "flt=%s,%s/configured-zero=%s" % (omf, cmf, zero_cfg), {"omf": omf, "cmf": cmf, "zero_cfg": zero_cfg}
+            if omf is not None or cmf is not None:
+                # a second function/gradient pair on the same evaluator, at another point, where the filter selects OTHER realizations:
+                # the flags of the second gradient request follow the weights of the second function evaluation
+                yield "flt=%s,%s/configured-zero=%s/second-pair-with-other-filter-weights" % (omf, cmf, zero_cfg), {"omf": omf, "cmf": cmf, "zero_cfg": zero_cfg, "second_pair": True}
 
 
 def scn_activity_calls(T, case):
@@ -285,9 +289,19 @@ def scn_activity_calls(T, case):
     sev = H.ScriptedEvaluator(T, ch, lambda v, r, p, k: vals[r, 0 if p is None or p < 0 else p + 1, :J], lambda v, r, p, k: vals[r, 0 if p is None or p < 0 else p + 1, J:])
     cfg = H.make_config(T, R, J, K, N, weights=cfgw, ow=T.const(np.array([1.0])), P=P, min_success=1, pert_min_success=1, magnitudes=T.const(np.ones(N)),
                         omap_flt=case["omf"], cmap_flt=case["cmf"])
-    ev = H.make_evaluator(T, ch, cfg, sev, filters=[H.AbstractFilter(W)], samplers=[H.FakeSampler(S)])
+    flt = H.AbstractFilter(W)
+    ev = H.make_evaluator(T, ch, cfg, sev, filters=[flt], samplers=[H.FakeSampler(S)])
     ev.calculate(x, compute_functions=True, compute_gradients=False)
     ev.calculate(x, compute_functions=False, compute_gradients=True)
+    if case.get("second_pair"):
+        fw2 = T.real("filter_weights_at_the_second_point", (R,), lo=0.001)
+        W = T.np.array([fw2[0], 0.0 * fw2[1], fw2[2]])  # at the second point the filter zeroes realization 1 (and no longer 0)
+        flt.w = W
+        x2 = T.real("x_second", (N,))
+        T.assume(T.any([(x2[i] - x[i] > 0.5) | (x[i] - x2[i] > 0.5) for i in range(N)]))
+        del sev.calls[:]
+        ev.calculate(x2, compute_functions=True, compute_gradients=False)
+        ev.calculate(x2, compute_functions=False, compute_gradients=True)
     fctx, gctx = sev.calls[0]["context"], sev.calls[1]["context"]
 
     def in_force(fmap):
@@ -431,6 +445,19 @@ def scn_chain(T, case):
     integration.scn_filter_chain(T, case, "C06")
 
 
+# ------------------------------------------------------------------------------------ what the plan steps hand on (shared contract)
+def cases_steps(tier):
+    from contracts import stepcontract
+
+    return stepcontract.cases(tier)
+
+
+def scn_steps(T, case):
+    from contracts import stepcontract
+
+    stepcontract.scenario(T, case, "C06")
+
+
 SCENARIOS = [
     Scenario("requests_labels_values_frame", scn_requests, cases_requests, {"quick": 3, "thorough": 20}),
     Scenario("activity_flags", scn_activity, cases_activity, {"quick": 10, "thorough": 60}),
@@ -438,6 +465,7 @@ SCENARIOS = [
     Scenario("inertness", scn_inert, cases_inert, {"quick": 5, "thorough": 40}),
     Scenario("user_domain_results", scn_user_results, cases_user_results, {"quick": 3, "thorough": 20}),
     Scenario("values_reported_next_to_a_built_in_filter", scn_chain, cases_chain, {"quick": 2, "thorough": 10}),
+    Scenario("plan_steps_hand_over", scn_steps, cases_steps, {"quick": 1, "thorough": 2}),
 ]
 
 MANIFEST = {
